@@ -52,6 +52,8 @@ type Run struct {
 	Leaked     int
 	Hash       uint64
 	PorcOK, PorcIllegal, PorcUnknown int
+
+	post []func() // executed after the bubble has ended (real clock, e.g. porcupine)
 }
 
 func (r *Run) Fail(class, key, format string, a ...any) {
@@ -114,6 +116,9 @@ func Execute(tt *testing.T, p *Prop, tape *Tape, verbose bool) *Run {
 		runBubble(tt, body)
 	} else {
 		body()
+	}
+	for _, f := range r.post {
+		f()
 	}
 	if r.S != nil {
 		s := r.S
